@@ -254,7 +254,15 @@ def run_case(spec):
         step_log.append((float(np.linalg.norm(st_[0] + st_[1])), fw.resolution, np.array(fw.x_best, copy=True)))
         return st_
 
+    geo_log = []  # (number of trust-region steps made so far, index replaced) per geometry step
+    orig_geo = cframework.TrustRegion.get_geometry_step
+
+    def tap_geo(fw, k_new, options):
+        geo_log.append((len(res_log), int(k_new)))
+        return orig_geo(fw, k_new, options)
+
     cframework.TrustRegion.get_trust_region_step = tap
+    cframework.TrustRegion.get_geometry_step = tap_geo
     try:
         with np.errstate(all="ignore"):
             try:
@@ -264,6 +272,7 @@ def run_case(spec):
                 return out
     finally:
         cframework.TrustRegion.get_trust_region_step = orig
+        cframework.TrustRegion.get_geometry_step = orig_geo
     xs = inst["xs"]
     err = float(np.linalg.norm(r.x - xs) / max(1.0, np.linalg.norm(xs)))
     v = inst["viol"](np.asarray(r.x, float))
@@ -283,6 +292,9 @@ def run_case(spec):
         if not (0.0 < sn <= 0.5 * rs):
             break
         short += 1
+    # geometry steps during that final run, and how many different indices they replaced
+    first_it = len(res_log) - stagnation
+    final_geo = [k for it, k in geo_log if it > first_it]
     centre_err = centre_viol = None
     if step_log and step_log[-1][2].shape == xs.shape:
         centre = step_log[-1][2]
@@ -291,6 +303,7 @@ def run_case(spec):
     data = dict(family=fam, status=int(r.status), success=bool(r.success), err=err, viol=v, nfev=int(r.nfev),
                 final_unevaluated_short_steps=short, centre_err=centre_err, centre_viol=centre_viol,
                 final_iterations_at_constant_resolution=stagnation, n=spec["n"],
+                final_geometry_steps=len(final_geo), final_geometry_indices=len(set(final_geo)),
                 last_resolution=float(res_log[-1][0]) if res_log else None)
     if err > TOLS[fam]:
         out.fail("C04.dist." + fam, "%s instance (n=%d): returned point at relative distance %.3g from the "
@@ -319,6 +332,17 @@ def sig_short_step_infeasible(spec, fail):
             and d.get("final_unevaluated_short_steps", 0) >= 1)
 
 
+def sig_geometry_cycle(spec, fail):
+    """KF-C04-4: linear equalities, n = 5; the minimiser has been found (1e-6) and the resolution has reached
+    radius_final, but the run does not stop: for hundreds of iterations a rejected trust-region step alternates
+    with a geometry step (nine iterations in ten at least), until maxfev (status 5)."""
+    d = fail.data
+    it = d.get("final_iterations_at_constant_resolution", 0)
+    return (fail.clause == "C04.status.lineq" and d.get("status") == 5 and d.get("err", 1) <= 1e-6
+            and it >= 100 and d.get("final_geometry_steps", 0) >= 0.9 * it)
+
+
 SIGNATURES = {
+    "lineq_status5_rejected_step_and_geometry_step_alternate_at_final_resolution": sig_geometry_cycle,
     "lineq_status0_short_steps_never_evaluated_equality_violation_above_tol": sig_short_step_infeasible,
 }
